@@ -114,6 +114,16 @@ def setup():
     env, I, W, urwid, VT, UrwidImageError = _env, _I, _W, _urwid, _VT, _E
     global SubImage
     SubImage = type("SubImage", (_W.UrwidImage,), {})
+    # clear_images(now=True) writes straight to the active terminal (utils.write_tty), which does not exist in the
+    # stub environment: route it to the output of the screen under test - one terminal, one byte stream
+    import term_image.widget._urwid as _WU
+
+    def write_tty(data):
+        if TTY_SINK[0] is None:
+            raise HarnessError("write_tty() outside a history")
+        TTY_SINK[0].write(data.decode())
+
+    _WU.write_tty = write_tty
     _urwid.set_encoding("utf-8")
     # diagnosis only: count the calls that change the hidden per-line "disguise" text (the originals still run)
     orig_w = _W.UrwidImage._ti_change_disguise
@@ -159,6 +169,9 @@ def retire_prior():
         if w is not None and hasattr(w, "_ti_z_index"):
             del w._ti_z_index
     _PRIOR.clear()
+
+
+TTY_SINK = [None]  # Capture of the screen under test (see setup())
 
 
 class Capture:
@@ -362,6 +375,7 @@ def _op(draw, any_top, explicit_clear, lifecycle):
         op["foreign"] = draw(st.booleans())
     elif k == "clear_images":
         op["ws"] = draw(st.lists(idx, min_size=0, max_size=3))
+        op["now"] = draw(st.sampled_from([False, False, True]))
     return op
 
 
@@ -509,6 +523,7 @@ class Lab:
         self.kitty_refs = []
         self.layout = case["layout"]
         self.out = Capture()
+        TTY_SINK[0] = self.out
         self.screen = self.new_screen(self.out)
         self.vt = VT.Screen(self.cols, self.rows, profile=self.profile, strict=False)
         self.vt.track_sync = True
@@ -587,7 +602,7 @@ class Lab:
                 self.fail(f"start() of a started screen wrote {data[:40]!r}", {"kind": "start_twice"})
             return
         self.no_placements(what)
-        self.allow_missing = False  # full repaint follows
+        self.allow_missing = self.cleared_explicitly = False  # full repaint follows
 
     def stop(self, what="stop()"):
         was_started = self.started
@@ -647,7 +662,7 @@ class Lab:
                     self.fail(f"clear() raised {type(e).__name__}: {e}", {"kind": "exception", "where": "clear", "exc": type(e).__name__})
                 self.pump()
                 self.no_placements("clear()")
-                self.allow_missing = False  # full repaint follows
+                self.allow_missing = self.cleared_explicitly = False  # full repaint follows
         elif k == "restart":
             self.trace.append(k)
             if self.started:
@@ -666,18 +681,28 @@ class Lab:
         elif k == "clear_images":
             idxs = sorted({i % len(self.pool) for i in op["ws"]}) if self.pool else []  # distinct widgets
             ws = [self.pool[i] for i in idxs]
-            self.trace.append(f"clear_images:{[self.styles[i] for i in idxs]}")
+            now = bool(op.get("now"))
+            self.trace.append(f"clear_images:{[self.styles[i] for i in idxs]}" + (":now" if now else ""))
             try:
-                self.screen.clear_images(*ws)
+                self.screen.clear_images(*ws, now=now)
+                if now:
+                    self.flags.add("clear_now")
+                    if self.started and self.out.buf == [] and (self.force or I.KittyImage.is_supported()) \
+                            and (not ws or any(isinstance(w._ti_image, I.KittyImage) for w in ws)):
+                        self.fail("clear_images(now=True) wrote nothing to the terminal", {"kind": "clear_now_silent"})
             except Exception as e:
                 self.fail(f"clear_images() raised {type(e).__name__}: {e}",
                           {"kind": "exception", "where": "clear_images", "exc": type(e).__name__})
             self.pump()
+            if not ws and self.started and (self.force or I.KittyImage.is_supported()):
+                # "If none is given, all images (of styles that support/require such an operation) are cleared"
+                self.no_placements("clear_images(now=True)" if now else "clear_images() + flush")
             self.flags.add("explicit_clear")
-            # The caller asked for the images to be removed; whether a later redraw of unchanged (cached) rows
-            # brings them back is not specified by the property or the documentation. Until the next full
-            # repaint (clear()/start()) only left-over images are judged, missing ones are tolerated.
-            self.allow_missing = True
+            # The caller asked for the images to be removed. A following draw_screen() of the very same canvas
+            # object is skipped by urwid altogether (nothing changed), so the images stay away: tolerated. As soon
+            # as a new canvas is drawn, every image in it must be on the terminal again (the library changes the
+            # hidden per-line text of cleared images for exactly that purpose).
+            self.cleared_explicitly = True
         elif k == "bad_draw":
             self.bad_draw()
         else:
@@ -775,12 +800,15 @@ class Lab:
         deleted_all = any(k.get("d", "a") in "aA" for k in dels)
         deleted_z = {k.get("z") for k in dels if k.get("d") in ("z", "Z")}
         before, after = self.dis_mark, self.disguises()
-        self.dis_mark, self.gl_mark = after, len(vt.graphics_log)
         stuck = [k for k, v in after.items() if before.get(k) == v and (deleted_all or str(v[1]) in deleted_z)]
         self.diag = {"same_canvas": same_canvas, "explicit_clear": "explicit_clear" in self.flags,
                      "prev_composite": prev_composite, "disguise_unchanged": bool(stuck),
                      "disguise_bumped": any(BUMPS.get("canvas", 0) + BUMPS.get(k, 0) > 0 for k in stuck)}
-        BUMPS.clear()
+        if len(data) > len(BEGIN) + len(END):
+            # the baseline of the next diagnosis is the last redraw that painted something (urwid skips a
+            # draw_screen() of the very same canvas object)
+            self.dis_mark, self.gl_mark = after, len(vt.graphics_log)
+            BUMPS.clear()
         # (1) stream complete and well-formed
         if not vt.in_ground():
             self.fail(f"redraw leaves the terminal parser in state {vt.parser_state()}", {"kind": "parser", "after": "redraw"})
@@ -812,6 +840,8 @@ class Lab:
             vt2.feed(out2.take())
             self.check_corrupt(vt2, 0, "fresh screen")
             self.compare(vt, vt2, composite)
+            if not same_canvas:
+                self.cleared_explicitly = False  # a new canvas was drawn and matched: the terminal is in step again
             keys = placement_keys(vt2)
         finally:
             try:
@@ -853,6 +883,12 @@ class Lab:
                       f"terminal rows: {[vt.text_row(y) for y in range(vt.rows)]}",
                       {"kind": "corrupt_sequence", "event": bad[0][0]})
 
+    def missing_ok(self):
+        if getattr(self, "allow_missing", False):
+            return True
+        # after an explicit clear_images(): only while the same canvas object keeps being "redrawn" (urwid skips it)
+        return bool(getattr(self, "cleared_explicitly", False) and self.diag.get("same_canvas"))
+
     def compare(self, vt, vt2, composite):
         g1, g2 = vt.graphics_map(), vt2.graphics_map()
         if g1 != g2:
@@ -860,7 +896,7 @@ class Lab:
             missing = sorted(c for c in g2 if g2[c] != g1.get(c) and set(g2[c]) - set(g1.get(c, ())))
             dup = sorted(c for c in g1 if c in g2 and set(g1[c]) == set(g2[c]) and g1[c] != g2[c])
             kind = "ghost" if ghost and not missing else "missing" if missing and not ghost else "stacked" if dup and not ghost and not missing else "ghost+missing"
-            if kind == "missing" and getattr(self, "allow_missing", False):
+            if kind == "missing" and self.missing_ok():
                 self.flags.add("missing_after_explicit_clear")
                 return
             c = (ghost or missing or dup)[0]
@@ -877,7 +913,7 @@ class Lab:
         for y in range(vt.rows):
             r1, r2 = vt.grid[y], vt2.grid[y]
             for x in range(vt.cols):
-                if (x, y) in g1 or ((x, y) in g2 and getattr(self, "allow_missing", False)):
+                if (x, y) in g1 or ((x, y) in g2 and self.missing_ok()):
                     continue  # under a graphics placement on both terminals
                 a, b = norm_cell(r1[x]), norm_cell(r2[x])
                 if a != b:
